@@ -53,14 +53,15 @@ type provider struct {
 	qos                  uint64
 }
 
-// providers: deposits are twice the minimum (price x 1000) so that a provider that was slashed for an expired
-// request stays available for the following batches
+// providers: P1 and P3 deposit twice the minimum (price x 1000), so that a provider that was slashed for an
+// expired request stays available for the following batches; P2 deposits exactly the minimum, so that its first
+// slash disables the binding and a second expiry in the same block meets a binding that is already unavailable
 func providers() []provider {
 	promoStart := mc.GenesisTime.Add(-time.Hour).Format(time.RFC3339)
 	promoEnd := mc.GenesisTime.Add(240 * time.Hour).Format(time.RFC3339)
 	return []provider{
 		{"P1", "O1", fmt.Sprintf(`{"price":"100stake","promotions_by_time":[{"start_time":"%s","end_time":"%s","discount":"0.7"}]}`, promoStart, promoEnd), 200000, 2},
-		{"P2", "O1", `{"price":"100stake","promotions_by_volume":[{"volume":1,"discount":"0.5"}]}`, 200000, 2},
+		{"P2", "O1", `{"price":"100stake","promotions_by_volume":[{"volume":1,"discount":"0.5"}]}`, 100000, 2},
 		{"P3", "O2", `{"price":"61stake"}`, 122000, 4},
 	}
 }
@@ -823,6 +824,10 @@ func (d *Driver) oneBlock(e *mc.Env, s *mc.State, dt time.Duration) []mc.Finding
 	}
 	for p, want := range dep {
 		if have := coinsBig(post.deposits[p]); have.Cmp(want) != 0 {
+			if nExpired > 0 {
+				// "expired at its expiration height (provider slashed ...)": the slash shows in the provider's recorded deposit
+				fs = append(fs, mc.F("C08/expired-request-outcome-missing/recorded-deposit", "binding %s: recorded deposit %s after end-block %d in which %d requests expired, the slashes require %s", p, have, h, nExpired, want))
+			}
 			fs = append(fs, mc.F("C07/slash-recorded-deposit-differs", "binding %s: recorded deposit %s after end-block %d, expected %s", p, have, h, want))
 		}
 	}
@@ -977,6 +982,8 @@ func Parts(mode string) func() []mc.Part {
 			mc.ExplorePartC("outcomes", New(Variant{Name: "outcomes", Mode: mode, Tmpl: []string{"one", "rep"}, ControlOps: true}), 7, 9, true, rule, conf),
 			mc.ExplorePartC("schedule", New(Variant{Name: "schedule", Mode: mode, Tmpl: []string{"rep", "poor"}}), 11, 13, true, rule, conf),
 			mc.ExplorePart("callbacks", New(Variant{Name: "callbacks", Mode: mode, Tmpl: []string{"mod"}}), 11, 13, true, rule),
+			// two contexts addressing one provider whose deposit is exactly the minimum: both requests expire in one block
+			mc.ExplorePart("double-expiry", New(Variant{Name: "double-expiry", Mode: mode, Tmpl: []string{"one", "poor"}}), 6, 8, true, rule),
 			// heights are the keys of the batch queues: batches and expirations of this chain fall on 254..260
 			mc.ExplorePart("schedule-at-height-252", New(Variant{Name: "schedule-at-height-252", Mode: mode, Tmpl: []string{"rep", "one"}, InitialHeight: 252}), 8, 10, true, rule),
 		}
